@@ -211,8 +211,12 @@ def router_request_spec():
 
 
 def contracts(repo):
+    from . import C05 as _C05
+    # a member that fails is answered inside the bundle with its own failure status: no exception of a member's store escapes Logix.request
     return [produce_request_spec(), produce_reply_spec(), router_request_spec(), closure_spec(),
-            Custom('lemma', split_lemma, note='induction behind the prefix/suffix split used by the closure contract')]
+            Custom('lemma', split_lemma, note='induction behind the prefix/suffix split used by the closure contract'),
+            Custom('status_after_store', _C05.status_after_store, replay=_C05.replay_status_order,
+                   note='ordering condition on the AST of Logix.request (shared with C05): failure status before the range computation, no success status before the store')]
 
 
 # ------------------------------------------------------------------------------------------------ closure (inverse of the table)
